@@ -247,16 +247,70 @@ impl Drop for DeadOnDrop {
         self.0.dead.store(true, Ordering::SeqCst);
     }
 }
+extern "C" fn on_usr1(_sig: i32) {}
+/// a no-op SIGUSR1 handler WITHOUT SA_RESTART: a waiting ppoll returns EINTR
+fn install_usr1() {
+    unsafe {
+        let mut sa: libc::sigaction = std::mem::zeroed();
+        sa.sa_sigaction = on_usr1 as usize;
+        sa.sa_flags = 0;
+        libc::sigemptyset(&mut sa.sa_mask);
+        assert_eq!(0, libc::sigaction(libc::SIGUSR1, &sa, std::ptr::null_mut()));
+    }
+}
+/// Interrupts the calling thread's timed wait: SIGUSR1 at the given fractions of the limit, as long as the
+/// call is still running.  Returns (guard flag, number sent, join handle).
+struct Interrupter {
+    active: Arc<std::sync::atomic::AtomicBool>,
+    sent: Arc<AtomicU64>,
+    h: Option<std::thread::JoinHandle<()>>,
+}
+impl Interrupter {
+    fn start(d_us: u64, fracs: &[f64]) -> Self {
+        let tid = unsafe { libc::syscall(libc::SYS_gettid) } as i32;
+        let active = Arc::new(std::sync::atomic::AtomicBool::new(true));
+        let sent = Arc::new(AtomicU64::new(0));
+        let (a2, s2, fr) = (active.clone(), sent.clone(), fracs.to_vec());
+        let begin = Instant::now();
+        let h = std::thread::spawn(move || {
+            for f in fr {
+                let at = Duration::from_micros((d_us as f64 * f) as u64);
+                while begin.elapsed() < at && a2.load(Ordering::SeqCst) {
+                    std::thread::sleep(Duration::from_micros(500));
+                }
+                if !a2.load(Ordering::SeqCst) {
+                    return;
+                }
+                unsafe { libc::syscall(libc::SYS_tgkill, libc::getpid(), tid, libc::SIGUSR1) };
+                s2.fetch_add(1, Ordering::SeqCst);
+            }
+        });
+        Interrupter { active, sent, h: Some(h) }
+    }
+    fn stop(mut self) -> u64 {
+        self.active.store(false, Ordering::SeqCst);
+        if let Some(h) = self.h.take() {
+            let _ = h.join();
+        }
+        self.sent.load(Ordering::SeqCst)
+    }
+}
+fn fracs_of(v: &Value) -> Vec<f64> {
+    v.as_array().map(|a| a.iter().map(|x| x.as_f64().unwrap()).collect()).unwrap_or_default()
+}
+
 /// One timed read while the peer is known to be silent: it has to come back, with Timeout.
-fn silent_read(log: &mut Log, s: &mut Stream, dir: u8, d_us: u64) {
+fn silent_read(log: &mut Log, s: &mut Stream, dir: u8, d_us: u64, interrupts: &[f64]) {
     let mut buf = [0u8; 16];
+    let intr = if interrupts.is_empty() { None } else { Some(Interrupter::start(d_us, interrupts)) };
     let st = log.start();
     let r = guarded(|| s.read(&mut buf, Some(Duration::from_micros(d_us))));
+    let nsig = intr.map_or(0, Interrupter::stop);
     let (class, errno) = res_of(&r);
     let k = if let Ok(Ok(k)) = &r { *k } else { 0 };
     let res = if class == "ok" && k == 0 { "eof" } else { class };
     log.done("read_to", st, json!({"req": 16, "res": res, "n": k, "errno": errno, "dir": dir, "off": 0, "match": k == 0, "bad_at": -1,
-                                   "d": d_us as i64, "silent_peer": true}));
+                                   "d": d_us as i64, "silent_peer": true, "signals": nsig}));
 }
 
 fn u64s(v: &Value) -> Vec<u64> {
@@ -336,6 +390,8 @@ fn run_stream_plan(id: usize, plan: &Value, workdir: &str) -> Value {
             };
             // after a timeout / a `none` the plan falls back to what it says in accept.then
             let k = if attempts == 1 { kind.as_str() } else { plan["accept"]["then"].as_str().unwrap_or(kind.as_str()) };
+            let fr = fracs_of(&plan["interrupts"]);
+            let intr = if k == "timeout" && attempts == 1 && !fr.is_empty() { Some(Interrupter::start(d_us, &fr)) } else { None };
             let r: Result<tiny_std::Result<Option<Stream>>, String> = guarded(|| match (&mut l, k) {
                 (Listener::U(l), "plain") => l.accept().map(|s| Some(Stream::U(s))),
                 (Listener::U(l), "timeout") => l.accept_with_timeout(Duration::from_micros(d_us)).map(|s| Some(Stream::U(s))),
@@ -344,6 +400,7 @@ fn run_stream_plan(id: usize, plan: &Value, workdir: &str) -> Value {
                 (Listener::T(l), "timeout") => l.accept_with_timeout(Duration::from_micros(d_us)).map(|s| Some(Stream::T(s))),
                 (Listener::T(l), _) => l.try_accept().map(|o| o.map(Stream::T)),
             });
+            let nsig = intr.map_or(0, Interrupter::stop);
             let (class, errno) = res_of(&r);
             let res = match &r {
                 Ok(Ok(None)) => "none",
@@ -359,7 +416,7 @@ fn run_stream_plan(id: usize, plan: &Value, workdir: &str) -> Value {
                 _ => (false, false),
             };
             log.done(opname, st, json!({"res": res, "errno": errno, "d": if k == "timeout" { d_us as i64 } else { -1 }, "nonblock": nonblock,
-                                        "s_nonblock": snb, "s_cloexec": scx}));
+                                        "s_nonblock": snb, "s_cloexec": scx, "signals": nsig}));
             match r {
                 Ok(Ok(Some(s))) => stream = Some(s),
                 Ok(Ok(None)) => sleep_ms(1),
@@ -372,7 +429,7 @@ fn run_stream_plan(id: usize, plan: &Value, workdir: &str) -> Value {
         // phase 0 (TCP): a timed read on the freshly constructed stream while the peer is silent
         if let (Some(d), Stream::T(_)) = (plan["silent_us"].as_u64(), &s) {
             stage_s.wait(1);                 // the client holds its stream and stays silent
-            silent_read(&mut log, &mut s, 1, d);
+            silent_read(&mut log, &mut s, 1, d, &fracs_of(&plan["interrupts"]));
             stage_s.reach(2);
             stage_s.wait(3);                 // the client's own silent read is over
         }
@@ -471,7 +528,7 @@ fn run_stream_plan(id: usize, plan: &Value, workdir: &str) -> Value {
         if let (Some(d), Stream::T(_)) = (plan["silent_us"].as_u64(), &s) {
             stage_c.reach(1);                // connected, silent from here on
             stage_c.wait(2);                 // the server's timed read on its new stream came back
-            silent_read(&mut log, &mut s, 2, d);
+            silent_read(&mut log, &mut s, 2, d, &fracs_of(&plan["interrupts"]));
             stage_c.reach(3);
         }
         sleep_ms(ms(&plan["cs"]["writer_delay_ms"]));
@@ -524,6 +581,7 @@ fn watchdog() {
 
 fn stream_mode(plans: &str, workdir: &str, skip: usize) {
     watchdog();
+    install_usr1();
     let f = std::io::BufReader::new(std::fs::File::open(plans).unwrap());
     for (id, line) in f.lines().enumerate() {
         if id < skip {
